@@ -52,12 +52,14 @@ def step_clauses(name, before, after, areas_impl):
     """The clauses of C02 for ONE refinement call: `before` = the cells (with the flags they had when the call was
     made), `after` = the cells of the allocation it returned, `areas_impl` = {module: area()} of the returned object."""
     used = [0] * len(after)
+    ab = [ac.cbox(c) for c in after]
     for p in before:
         pb = ac.cbox(p)
-        kids = [(i, c) for i, c in enumerate(after) if ac.ovl(pb, ac.cbox(c)) > 0]
+        kids = [(i, c) for i, c in enumerate(after)
+                if ab[i][0] < pb[2] and pb[0] < ab[i][2] and ab[i][1] < pb[3] and pb[1] < ab[i][3]]     # overlap > 0
         for i, c in kids:
             used[i] += 1
-            b = ac.cbox(c)
+            b = ab[i]
             if not (b[0] >= pb[0] and b[1] >= pb[1] and b[2] <= pb[2] and b[3] <= pb[3]):
                 return f"{name}: a new cell is not inside the cell it was cut from"
             if dict(map(tuple, c["alloc"])) != dict(map(tuple, p["alloc"])):
@@ -68,9 +70,9 @@ def step_clauses(name, before, after, areas_impl):
             return f"{name}: the new cells do not cover the cell they were cut from"
         for x in range(len(kids)):
             for y in range(x + 1, len(kids)):
-                if ac.ovl(ac.cbox(kids[x][1]), ac.cbox(kids[y][1])) > 0:
+                if ac.ovl(ab[kids[x][0]], ab[kids[y][0]]) > 0:
                     return f"{name}: new cells overlap"
-        if p["rect"]["fixed"] and (len(kids) != 1 or ac.cbox(kids[0][1]) != pb):
+        if p["rect"]["fixed"] and (len(kids) != 1 or ab[kids[0][0]] != pb):
             return f"{name}: a cell of a fixed module was cut"
     if any(u != 1 for u in used):
         return f"{name}: a new cell does not belong to exactly one original cell"
@@ -161,12 +163,21 @@ def gen_cases(rng, n, quick):
     cases += [av.vary(rng, av.gen_big(rng, quick)) for _ in range(n_big)]
     cases += [av.vary(rng, av.gen_sliver2(rng)) for _ in range(n_sliver)]
     cases += [av.vary(rng, ac.gen_hist_case(rng)) for _ in range(n_hist - n_tmpl - n_big - n_sliver)]
-    cases += [ac.gen_case(rng) for _ in range(n - n_hist)]
-    return cases
+    chains = [ac.gen_case(rng) for _ in range(n - n_hist)]
+    # interleave (chain cases print larger terms): the shards evaluated in parallel get similar loads
+    out = []
+    step = max(len(chains) / max(len(cases), 1), 0.0)
+    taken = 0
+    for i, c in enumerate(cases):
+        out.append(c)
+        upto = int(round((i + 1) * step))
+        out += chains[taken:upto]
+        taken = upto
+    return out + chains[taken:]
 
 
 def run(ctx, out, replay=None):
-    n = 600 if ctx.quick() else 5000
+    n = 520 if ctx.quick() else 5000
     out.rule = ("allocations from random dyadic guillotine partitions (also sparse, grid, sliver layouts), occupancy maps "
                 "empty/single/multi/full/fixed, depths 0-3. (a) chains: 1-4 random refinement operations, each applied to the "
                 "result of the previous one (refine with thresholds equal to occurring ratios, uniform depth, griddify); "
@@ -182,6 +193,6 @@ def run(ctx, out, replay=None):
     cases += fr.load_corpus("C02")
     cases += gen_cases(ctx.rng, max(n - len(cases), 0), ctx.quick())
     fr.run_cases(ctx, out, cases, ac.run_any, ac.any_to_coq, oracle, failure_key, HEADER_H,
-                 dist_key=ac.any_dist_key, nontrivial=ac.nontrivial, shard=150, shrink=ac.any_shrink)
+                 dist_key=ac.any_dist_key, nontrivial=ac.nontrivial, shard=75, shrink=ac.any_shrink)
     out.extra["history_cases"] = sum(1 for c in cases if ac.is_hist(c))
     out.extra["variants"] = ac.variant_counts(cases)
